@@ -276,3 +276,19 @@ package py
 //@   loop 1 (rangeindex)
 //@     invariant rng: 0 - 1 <= rangeindex && rangeindex < len(a.Mro)
 //@     invariant notyet: forall j in [0, rangeindex + 1): a.Mro[j].(*Type) != b
+
+// ---- binding of functions found on the class (C16) ----
+
+//@ func (*Function).M__get__(f, instance, owner) (r, err)
+//@   requires nn: instance != nil
+//@   ensures bound: !isNone(instance) ==> err == nil && is(r, *BoundMethod) && fresh(r.(*BoundMethod)) && r.(*BoundMethod).Self == instance && is(r.(*BoundMethod).Method, *Function) && r.(*BoundMethod).Method.(*Function) == f
+//@   ensures unbound: isNone(instance) ==> err == nil && is(r, *Function) && r.(*Function) == f
+
+//@ func (*ClassMethod).M__get__(c, instance, owner) (r, err)
+//@   requires nn: owner != nil || instance != nil
+//@   modifies *
+//@   ensures cls: owner != nil ==> err == nil && is(r, *BoundMethod) && r.(*BoundMethod).Self == owner && r.(*BoundMethod).Method == old(c.Callable)
+
+//@ func (*StaticMethod).M__get__(c, instance, owner) (r, err)
+//@   pure
+//@   ensures plain: err == nil && r == c.Callable
